@@ -52,7 +52,9 @@ def run(R, tier):
         guard = assume[0] if assume else None
         gdesc = guard.args[0][2] if guard else None
         # guard must be Ge(len(mnemonic), len(s))
-        gok = bool(gdesc) and gdesc[0] == "binop" and gdesc[1] == "Ge" and "len" in repr(gdesc[2]) and "'mnemonic'" in repr(gdesc[2]) and "len" in repr(gdesc[3]) and "'s'" in repr(gdesc[3])
+        def is_len(x, of):
+            return isinstance(x, tuple) and x[0] == "sym" and isinstance(x[2], tuple) and x[2][0] == "ret" and x[2][1].endswith("::len") and ("'%s'" % of) in repr(x[2][3])
+        gok = bool(gdesc) and gdesc[0] == "binop" and gdesc[1] == "Ge" and is_len(gdesc[2], "mnemonic") and is_len(gdesc[3], "s")
         if not gok:
             frame_ok = False
             continue
